@@ -245,9 +245,7 @@ class C16(Property):
     pid = "C16"
     quick_n = 900
     thorough_n = 12000
-    partial = ["markdown is not modelled: its completeness is decided from the document handed to it (identical to the HTML one) and "
-               "by the oracle on its text",
-               "the theorems about the documents bpaf builds (existence, balanced blocks, well-nested HTML) assume that the "
+    partial = ["the theorems about the documents bpaf builds (existence, balanced blocks, well-nested HTML) assume that the "
                "definition's own documents are balanced -- all the Doc API can build; checked on every document of every run too"]
 
     def generate(self, rng, tier, n):
@@ -297,6 +295,9 @@ class C16(Property):
                 if ic is None or ic[0] != "RDOC":
                     out.append(Finding("violation", c, "renderer did not return: %s" % common.show(ic)))
                     continue
+                if mc is not None and mc[0] == "RDOC" and len(mc) > 4 and len(ic) > 4 and mc[4] != ic[4]:
+                    out.append(Finding("disagree", c, "markdown rendering of an explicit document differs: model %r vs implementation %r" % (
+                        mc[4] if mc[4] == "PANIC" else gen.unhx(mc[4])[:200], ic[4] if ic[4] == "PANIC" else gen.unhx(ic[4])[:200])))
                 if mc is None or mc[0] != "RDOC" or mc[1:3] != ic[1:3]:
                     which = "html" if (mc is None or mc[1] != ic[1]) else "roff"
                     out.append(Finding("disagree", c, "%s rendering of an explicit document differs: model %r vs implementation %r" % (
@@ -331,7 +332,8 @@ class C16(Property):
                 out.append(Finding("disagree", c, "model produced no documentation: %s" % (mc,)))
             else:
                 for name, a, b in (("html document (token list)", mc[3], dh), ("manpage document (token list)", mc[4], dr),
-                                   ("html text", mc[1], html_h), ("manpage text", mc[2], man_h)):
+                                   ("html text", mc[1], html_h), ("manpage text", mc[2], man_h),
+                                   ("markdown text", mc[5] if len(mc) > 5 else None, md_h)):
                     if a != b:
                         out.append(Finding("disagree", c, "%s differs: model %s vs implementation %s" % (name, self.first_diff(a, b), "")))
                         break
